@@ -111,6 +111,19 @@ def build(ty, js):
         for f, _ty in p[1]:
             a[f] = fnum(js["__row__"][f])
         return a[0]
+    if k == "Func":
+        table = {fnum(a): fnum(b) for a, b in js["__func__"].items()}
+        dflt = fnum(js.get("default", 0.0))
+
+        def f(x, __t=table, __d=dflt):
+            if isinstance(x, np.ndarray) and x.ndim >= 1:
+                return np.array([__t.get(float(p), __d) for p in x],
+                                dtype=float)
+            return __t.get(float(x), __d)
+        f.table, f.default = table, dflt
+        return f
+    if k == "Pool":
+        return FakePool()
     if k == "Tbl":
         rows = js["__tbl__"] if isinstance(js, dict) else []
         return np.array([[fnum(x) for x in r] for r in rows],
@@ -145,6 +158,19 @@ class Anything:
 
     def __fspath__(self):
         return "/tmp/pyvc-replay-any"
+
+
+class FakePool:
+    """order-preserving pool (the assumed contract of Pool.map)"""
+
+    def map(self, f, it):
+        return [f(v) for v in it]
+
+    def close(self):
+        pass
+
+    def join(self):
+        pass
 
 
 class Stub:
@@ -324,6 +350,10 @@ SPEC_NS = {
     "isnan": lambda x: bool(np.isnan(x)),
     "isfinite": lambda x: bool(np.isfinite(x)),
     "INF": math.inf, "NAN": math.nan, "np": np,
+    "pointwise": lambda f, p: f(p),
+    "same_function": lambda a, b: a is None or a is b or (
+        getattr(a, "table", 0) == getattr(b, "table", 1)
+        and getattr(a, "default", 0) == getattr(b, "default", 1)),
     "len": len, "range": range, "all": all, "any": any, "abs": abs,
     "min": min, "max": max, "int": int, "float": float, "sum": sum,
 }
